@@ -247,3 +247,72 @@ def ob_b2(ctx: Ctx) -> Outcome:
     if wits:
         return Outcome.refuted("real sealer", wits[:10], **extra)
     return Outcome.ok("real sealer", **extra)
+
+
+# ---- B3: sealed FILES (the CLI writes the sealed text; a later process reads it back in text mode) --------------------------
+FILE_STRINGS = ['a\\nb', 'a\\tb', 'a\\\\b', 'say \\"hi\\"', 'progress 10%\\rprogress 100%', '\\r?\\n', 'a\\\\rb', 'a\\\\nb', "a b", "a\u0085b", "a\x0bb", "a\x0cb", "tail\\\\", "é x", "a\\qb", "\\u0041"]
+
+
+def _sealed_file_one(i: int):
+    """(failed, text): `octave seal IN -o OUT`, then `octave validate OUT --verify-seal --require-seal` in a fresh
+    CliRunner call, then re-seal OUT: an untouched sealed file verifies and re-sealing it keeps the hash"""
+    import os
+    import re
+    import tempfile
+
+    from click.testing import CliRunner
+
+    from octave_mcp.cli.main import cli
+
+    body = FILE_STRINGS[i % len(FILE_STRINGS)]
+    crlf = i >= len(FILE_STRINGS)
+    src = f'===DOC===\nMETA:\n  TYPE::X\nK::"{body}"\nL::["{body}",x]\n===END===\n'
+    if crlf:
+        src = src.replace("\n", "\r\n")
+    runner = CliRunner()
+    with tempfile.TemporaryDirectory(prefix="vf-c15-") as td:
+        a, b, c = (os.path.join(td, n) for n in ("in.oct.md", "out.oct.md", "again.oct.md"))
+        with open(a, "w", encoding="utf-8", newline="") as f:
+            f.write(src)
+        r1 = runner.invoke(cli, ["seal", a, "-o", b])
+        if r1.exit_code != 0:
+            return False, f"not sealable: {r1.output.strip()[:100]}"
+        r2 = runner.invoke(cli, ["validate", b, "--verify-seal", "--require-seal"])
+        label = f"string body {body!r}{' (CRLF-stored input)' if crlf else ''}"
+        if r2.exit_code != 0 or "VERIFIED" not in r2.output:
+            return True, f"{label}: the untouched sealed file does not verify: exit {r2.exit_code}, {r2.output.strip()[-160:]!r}; sealed bytes {open(b, 'rb').read()[:200]!r}"
+        r3 = runner.invoke(cli, ["seal", b, "-o", c])
+        h = [re.findall(r'HASH::"([0-9a-f]{64})"', open(p, encoding="utf-8", newline="").read()) for p in (b, c)] if r3.exit_code == 0 else None
+        if h is None or h[0] != h[1]:
+            return True, f"{label}: sealing the sealed file again gives a different seal ({h})"
+    return False, "verified"
+
+
+def replay_sealed_file(i: int):
+    return _sealed_file_one(i)
+
+
+def ob_b3(ctx: Ctx) -> Outcome:
+    n = 2 * len(FILE_STRINGS)
+    wits = []
+    ran = 0
+    for i in range(n):
+        failed, text = _sealed_file_one(i)
+        ran += 0 if text.startswith("not sealable") else 1
+        if failed:
+            wits.append(Witness(what=text[:900], input={"case": i}, key=f"sealed-file|{FILE_STRINGS[i % len(FILE_STRINGS)]!r}", replay={"runner": "props.C15_b:replay_sealed_file", "args": {"i": i}}, confirmed=True))
+    extra = dict(bound=f"{len(FILE_STRINGS)} string bodies (every escape form, unknown escapes, the backslash-r spelling, Unicode line separators, VT / FF) as an assignment and a list item x LF / CRLF-stored input: octave seal -o, octave validate --verify-seal --require-seal on the file, octave seal on the sealed file", evaluations=n, distinct_nontrivial=ran, rule="a case is one source file through three CLI calls")
+    if ran == 0:
+        return Outcome.undecided("real CLI on files", "no case could be sealed")
+    if wits:
+        return Outcome.refuted("real CLI on files", wits[:8], **extra)
+    return Outcome.ok("real CLI on files", **extra)
+
+
+def probe_sealed_files():
+    bad = []
+    for i in range(2 * len(FILE_STRINGS)):
+        failed, text = _sealed_file_one(i)
+        if failed:
+            bad.append(text)
+    return bool(bad), "; ".join(bad[:2]) or f"{2 * len(FILE_STRINGS)} sealed files verify untouched and re-seal to the same hash"
